@@ -561,7 +561,7 @@ def total8(ctx) -> List[Ob]:
 def _guard_key(fn, node) -> str:
     from .ctrl import _guard_conditions
 
-    gs = _guard_conditions(fn.node, node)[:3]
+    gs = _guard_conditions(fn.node, node)[:1]  # the innermost condition only: the one that selects the arm
     return " & ".join(("" if pol else "not ") + A.alpha_key(ast.parse(t, mode="eval").body) for t, pol in reversed(gs))
 
 
